@@ -388,11 +388,21 @@ class Functor(pg_object.Object, utils.Functor):
   def _apply_call_time_overrides_to_members(self, **kwargs):
     """Overrides member values within the scope."""
     assert self._tls is not None
+    # NOTE: the functor may be called recursively from its own `_call`, thus
+    # we restore the overrides of the outer call when leaving the scope.
+    outer_overrides = getattr(
+        self._tls, Functor._TLS_OVERRIDE_MEMBERS_KEY, None
+    )
     setattr(self._tls, Functor._TLS_OVERRIDE_MEMBERS_KEY, kwargs)
     try:
       yield
     finally:
-      delattr(self._tls, Functor._TLS_OVERRIDE_MEMBERS_KEY)
+      if outer_overrides is None:
+        delattr(self._tls, Functor._TLS_OVERRIDE_MEMBERS_KEY)
+      else:
+        setattr(
+            self._tls, Functor._TLS_OVERRIDE_MEMBERS_KEY, outer_overrides
+        )
 
   def _parse_call_time_overrides(
       self, *args, **kwargs
